@@ -44,20 +44,20 @@ def apply_real(op, flag, prog):
         for r in routines:
             do_cp(r)
     elif op == 'uv':
-        # as RemoveCodeTransformation.transform_subroutine does it, callees first (reverse traversal)
+        # the utilities RemoveCodeTransformation.transform_subroutine strings together, callees first
         for r in routines:
             r.enrich(routines)
         for r in routines:
             rc.do_remove_unused_vars(r, remove_only_arrays=(flag == 'arrays'))
-        main = routines[0]
-        unused = {}
+        pairs = []
         for r in routines[1:]:
             ua, _ = rc.find_unused_dummy_args_and_vars(r)
-            unused[r] = ua
+            pairs.append((r, ua))
         for r in routines:
-            rc.do_remove_unused_call_args(r, unused)
-        for r in routines[1:]:
-            rc.do_remove_unused_dummy_args(r, unused[r])
+            # (Subroutine objects hash by content: build the lookup table afresh after every mutation)
+            rc.do_remove_unused_call_args(r, {rr: ua for rr, ua in pairs})
+        for r, ua in pairs:
+            rc.do_remove_unused_dummy_args(r, ua)
     else:
         raise ValueError(op)
     return sf
@@ -67,22 +67,33 @@ def exc_kind(e):
     return type(e).__name__.lower()
 
 
+_cache = {}
+
+
 def real_transformed(op, flag, prog):
-    """('ok', prog') | ('error', kind) | ('unsupported', kind)"""
+    """('ok', prog', fgen text) | ('error', kind, message) | ('unsupported', kind, '') — memoised per request (impl and
+    oracle of the same case share one run of the real transformation)"""
+    key = (op, flag, dumps(prog))
+    if key in _cache:
+        return _cache[key]
+    _, _, fgen = _loki()
     try:
         sf = apply_real(op, flag, prog)
     except Exception as e:   # the transformation raised on valid input
-        return ('error', exc_kind(e), str(e)[:160])
-    try:
-        return ('ok', fir.export_unit(sf, main=str(prog[1])), sf)
-    except fir.Unsupported as e:
-        return ('unsupported', e.kind, '')
+        r = ('error', exc_kind(e), str(e)[:160])
+    else:
+        try:
+            r = ('ok', fir.export_unit(sf, main=str(prog[1])), fgen(sf))
+        except fir.Unsupported as e:
+            r = ('unsupported', e.kind, '')
+    if len(_cache) > 4000:
+        _cache.clear()
+    _cache[key] = r
+    return r
 
 
-def real_via_fgen(sf, main):
+def real_via_fgen(text, main):
     """Loki's own fgen text of the transformed source, parsed again and exported"""
-    _, _, fgen = _loki()
-    text = fgen(sf)
     try:
         sf2 = fir.parse_fortran(text)
         return ('ok', fir.export_unit(sf2, main=main), text)
@@ -309,15 +320,114 @@ def known_simplify_arith(prog, which):
     return False
 
 
+def _cond_foldable(e, simp):
+    if _h(e) == 'b':
+        return True
+    if not simp:
+        return False
+    for n in ex_nodes(e):
+        if _h(n) == 'b':
+            return True
+        if _h(n) == 'bin' and str(n[1]) in fir.CMPS and fir._const_int(n[2]) is not None and fir._const_int(n[3]) is not None:
+            return True
+    return False
+
+
+def known_dc_elseif(prog, simp):
+    """an ELSE IF (the else part of an IF is a single IF) whose condition contains a logical literal (or, with
+    use_simplify, a comparison of integer constants): when that inner IF is pruned to nothing the rebuilt outer
+    Conditional gets has_elseif = () and pydantic raises ValidationError"""
+    for u in prog[2:]:
+        for s in iter_stmts(u[4]):
+            if _h(s) == 'if' and len(s[3]) == 1 and _h(s[3][0]) == 'if' and _cond_foldable(s[3][0][1], simp):
+                return True
+    return False
+
+
+def _outside_own_loops(stmts, v, inside=False):
+    """does name v occur (other than as the DO variable itself) outside the DO loops it controls?"""
+    for s in stmts:
+        h = _h(s)
+        own = h == 'do' and str(s[1]) == v
+        exprs = stmt_exprs(s)[1:] if h == 'do' else ([] if h == 'print' else stmt_exprs(s))   # PRINT is no use for the dataflow sets
+        if not inside and any(v in ex_names(e) for e in exprs):
+            return True
+        subs = {'do': [s[5]] if h == 'do' else [], 'while': [s[2]] if h == 'while' else [],
+                'assoc': [s[2]] if h == 'assoc' else [], 'if': [s[2], s[3]] if h == 'if' else [],
+                'select': ([c[1] for c in s[2]] + [s[3]]) if h == 'select' else []}.get(h, [])
+        for b in subs:
+            if _outside_own_loops(b, v, inside or own):
+                return True
+    return False
+
+
+def known_uv_dovar(prog):
+    """a local scalar that is a DO variable and is not mentioned outside the loops it controls (PRINT statements do not
+    count, see uv-print-only-variable): the dataflow analysis
+    keeps loop variables local to their loops, so find_unused_dummy_args_and_vars reports it unused and
+    do_remove_unused_vars(remove_only_arrays=False) deletes its declaration"""
+    for u in prog[2:]:
+        args = {str(a) for a in u[2]}
+        for s in iter_stmts(u[4]):
+            if _h(s) == 'do' and str(s[1]) not in args and not _outside_own_loops(u[4], str(s[1])):
+                return True
+    return False
+
+
+def known_uv_print(prog):
+    """a declared name whose only occurrences in the body are in PRINT statements: PRINT arguments are not part of
+    uses_symbols, so the name counts as unused (a dummy is removed from the interface, a local loses its declaration)"""
+    for u in prog[2:]:
+        printed, other = set(), set()
+        for s in iter_stmts(u[4]):
+            tgt = printed if _h(s) == 'print' else other
+            for e in stmt_exprs(s):
+                tgt |= ex_names(e)
+        for d in u[3]:
+            for lo, hi in d[4]:
+                other |= ex_names(lo) | ex_names(hi)
+        if printed - other:
+            return True
+    return False
+
+
+def known_uv_assoc(prog):
+    """an ASSOCIATE whose selector is an expression (not a variable, element or section): get_used_or_defined_symbols
+    meets the expression among the used symbols and raises AttributeError (no name_parts)"""
+    for u in prog[2:]:
+        for s in iter_stmts(u[4]):
+            if _h(s) == 'assoc' and any(_h(b[1]) not in ('v', 'idx', 'sec') for b in s[1]):
+                return True
+    return False
+
+
 CP_CLASSES = [('cp-loop-assigned-scalar', known_cp_loop), ('cp-call-not-invalidating', known_cp_call),
               ('cp-associate-alias', known_cp_assoc), ('cp-select-sequential', known_cp_select),
               ('cp-literal-type-conversion', known_cp_type),
               ('simplify-arithmetic-inherited', lambda p: known_simplify_arith(p, 'cp'))]
-DC_CLASSES = [('simplify-arithmetic-inherited', lambda p: known_simplify_arith(p, 'dc'))]
 
 
-def classify(op, flag, prog):
-    table = CP_CLASSES if op == 'cp' else (DC_CLASSES if (op == 'dc' and flag == 'simp') else [])
+def classify(op, flag, prog, kind=''):
+    """known-finding class of a failing input (None = outside every class).  ``kind``: 'raise <exception>' | 'diff' |
+    'reject'"""
+    if op == 'cp':
+        table = list(CP_CLASSES)
+        if kind.startswith('raise'):     # exceptions come out of the expression simplifier
+            table = [CP_CLASSES[-1]] + CP_CLASSES[:-1]
+    elif op == 'dc':
+        table = []
+        if kind.startswith('raise validationerror'):
+            table.append(('dc-elseif-emptied', lambda p: known_dc_elseif(p, flag == 'simp')))
+        # symbolic_op(expr, eq, value) of visit_MultiConditional calls simplify even with use_simplify=False
+        table.append(('simplify-arithmetic-inherited', lambda p: known_simplify_arith(p, 'dc')))
+    elif op == 'uv':
+        table = [('uv-print-only-variable', known_uv_print)]
+        if flag == 'all':
+            table.insert(0, ('uv-do-variable-removed', known_uv_dovar))
+        if kind.startswith('raise attributeerror'):
+            table.insert(0, ('uv-associate-expression-selector', known_uv_assoc))
+    else:
+        table = []
     for name, pred in table:
         if pred(prog):
             return name
@@ -329,17 +439,17 @@ def classify(op, flag, prog):
 def run_oracle(op, flag, prog, inputs, gfortran=False):
     """[(what, cls)] — original vs really transformed program on every input set"""
     out = []
-    cls = classify(op, flag, prog)
     res = real_transformed(op, flag, prog)
     if res[0] == 'error':
-        return [(f'{op}: the transformation raised {res[1]}: {res[2]}', cls)]
+        return [(f'{op}: the transformation raised {res[1]}: {res[2]}', classify(op, flag, prog, 'raise ' + res[1]))]
+    cls = classify(op, flag, prog, 'diff')
     if res[0] == 'unsupported':
         return [(f'{op}: transformed IR left the FIR subset: {res[1]}', cls)]
-    q, sf = res[1], res[2]
-    viaf = real_via_fgen(sf, str(prog[1]))
+    q, text = res[1], res[2]
+    viaf = real_via_fgen(text, str(prog[1]))
     if viaf[0] != 'ok':
         # is it the transformation, or does Loki's fgen text of the UNtransformed routine fail the same way (C01/C02/C06)?
-        base = real_via_fgen(fir.parse_fortran(fir.emit_fortran(prog, wrap_program=False)), str(prog[1]))
+        base = real_via_fgen(_loki()[2](fir.parse_fortran(fir.emit_fortran(prog, wrap_program=False))), str(prog[1]))
         if base[0] == 'ok':
             return [(f'{op}: fgen text of the transformed code is not accepted again ({viaf[0]} {viaf[1]})', cls)]
         q2 = q
@@ -634,3 +744,201 @@ def gen_cp_program(rng, loops=True, extras=True):
         if ok:
             return p
     return p
+
+
+# ====================================================================== the property
+
+WIDE_CFG = {'max_stmts': 14, 'n_callees': (0, 1), 'callee_stmts': 5}
+DC_CFG = {'max_stmts': 14, 'n_callees': (0, 1), 'callee_stmts': 5, 'weights': {'if': 25, 'select': 8}}
+UV_CFG = {'max_stmts': 12, 'n_callees': (1, 2), 'callee_stmts': 5, 'weights': {'call': 20}}
+
+
+def mkreq(op, flag, kmode, prog, inputs):
+    return [A('c32'), A(op), A(flag), A(kmode), prog, inputs]
+
+
+def dec_req(req):
+    if not isinstance(req, list) or len(req) != 6 or str(req[0]) != 'c32':
+        raise ValueError('malformed request')
+    op, flag, kmode = str(req[1]), str(req[2]), str(req[3])
+    if op not in ('dc', 'cp', 'uv') or kmode not in ('k', 'o', 'kg', 'og') or flag not in ('simp', 'nosimp', 'plain', 'all', 'arrays'):
+        raise ValueError('malformed request')
+    prog, inputs = req[4], req[5]
+    if _h(prog) != 'program' or not isinstance(inputs, list):
+        raise ValueError('malformed request')
+    return op, flag, kmode, prog, inputs
+
+
+class C32(Prop):
+    id = 'C32'
+    title = 'Constant propagation and code removal preserve behaviour'
+    model_modules = ['LokiModel.C32.Model', 'LokiModel.C32.Encode']
+    props_module = 'LokiModel.Props.C32'
+    findings_module = 'LokiModel.Findings.C32'
+    driver = 'Drivers/C32.lean'
+    theorems = ['C32_deadcode_sound', 'C32_deadcode_runMain', 'C32_mapper_sound', 'C32_constprop_sound_loopfree',
+                'C32_constprop_invariant']
+    design_ref = 'DESIGN.md 4.F C32'
+    level = 'proof'
+    level_text = (
+        'Theorems (Lean kernel, all programs of the modelled class, all states, all fuel, FIR semantics of Fir/Sem.lean): '
+        'C32_deadcode_sound / C32_deadcode_runMain — full strength: for the model of RemoveDeadCodeTransformer (IF pruning on '
+        'literal or simplify-foldable conditions, SELECT CASE pruning on constant selectors, every other statement kind '
+        'traversed, callee bodies transformed as well) every finished run of the original is reproduced by the transformed '
+        'program (simulation over the four mutually recursive interpreter functions, fuel aligned by the monotonicity theorem). '
+        'C32_mapper_sound — the model of ConstantPropagationMapper/simplify on the covered expression class preserves values '
+        'under a constants map that holds in the state, outside two type-dependent folds (v - v -> 0, 0 * v -> 0). '
+        'C32_constprop_sound_loopfree / C32_constprop_invariant — for loop-free bodies (scalar and element assignments, IF/ELSE, '
+        'PRINT, comments) the invariant "every entry of the constants map holds in every state reaching this point" is '
+        'maintained and the rewritten body computes the same run; hypotheses: alias-free state whose scalar cells have their '
+        'declared type (Inv), decidable domain predicate cpOK (excludes the open class cp-literal-type-conversion and the two '
+        'type-dependent folds). NOT covered by a theorem because the unchanged code is wrong there (model mirrors it, '
+        'witness theorems in Findings/C32.lean, oracle classes): DO / DO WHILE bodies, SELECT CASE, ASSOCIATE, CALL under '
+        'constant propagation. Unused variable / dummy argument removal: direct oracle only (no model).')
+    level_note = (
+        'The model is hand-written from constant_propagation.py and remove_code.py; the expression mapper is modelled only on '
+        'the class where SimplifyMapper acts by literal folding, unit laws and reordering (atoms, -a, a+b, a-b, a*b, comparisons, '
+        '.not./.and./.or.) — outside it the model answers outside-class and only the oracle applies (the full simplifier is '
+        'C08). Tied to the code by comparing export(T_real(parse(emit p))) with the Lean driver on generated programs. '
+        'The Fortran semantics is the shared FIR interpreter (tied to gfortran by fir_selftest and by the thorough oracle).')
+    technique = 'Lean 4 simulation proofs about a hand-written model over the shared FIR semantics + correspondence with the real transformers + direct oracle (Python FIR interpreter, gfortran in the thorough tier)'
+    rule = ('programs: (cp-k) own generator of integer/logical/real-copy programs inside the modelled expression class with '
+            'conditionals, DO loops, SELECT, array elements; (dc-k-lit / dc-k-simp) fir.gen_program biased to IF/SELECT with '
+            'conditions replaced by literal / simplify-foldable ones; (cp-wide, dc-wide, uv) unrestricted fir.gen_program, the '
+            'latter with injected unused locals and dummies; 2-3 input sets each; non-trivial = the transformation changed the '
+            'program; distinct by request line')
+    trusted_base = ['harness/fir.py (emitter, exporter, reference interpreter, gfortran runner; three-way self-test)',
+                    'Loki fparser frontend and fgen backend for the round trip of the transformed code',
+                    'lean/LokiModel/Fir/Sem.lean as the meaning of FIR programs', 'Lean driver evaluation of model definitions']
+    assumptions = ['programs are standard-conforming FIR programs whose original run finishes without error (other runs are outside the property)',
+                   'integers are unbounded and reals exact rationals in the model; generated programs stay inside 32-bit / exact doubles',
+                   'do_constant_propagation without loop unrolling; RemoveCodeTransformation pieces are called directly, not through the Scheduler']
+    extra_obligations = ['correspondence: dead-code removal (use_simplify on/off) real vs model',
+                         'correspondence: constant propagation real vs model',
+                         'oracle: original vs transformed program (exported IR and fgen text) on every input set',
+                         'post: programs inside the theorem domain pass the oracle']
+
+    def classes(self):
+        return ['cp-loop-assigned-scalar', 'cp-call-not-invalidating', 'cp-associate-alias', 'cp-select-sequential',
+                'cp-literal-type-conversion', 'simplify-arithmetic-inherited', 'dc-elseif-emptied',
+                'uv-do-variable-removed', 'uv-print-only-variable', 'uv-associate-expression-selector']
+
+    # ------------------------------------------------------------ generation
+    def gen(self, rng, tier):
+        n = {'quick': dict(cpk=36, dcl=10, dcs=16, cpw=8, dcw=6, uv=8),
+             'thorough': dict(cpk=400, dcl=80, dcs=150, cpw=80, dcw=60, uv=60),
+             'search': dict(cpk=200, dcl=50, dcs=80, cpw=50, dcw=30, uv=40)}.get(tier, None) or \
+            dict(cpk=36, dcl=10, dcs=16, cpw=8, dcw=6, uv=8)
+        g = (lambda k: 'g' if (tier == 'thorough' and k % 8 == 0) else '')
+        for k in range(n['cpk']):
+            p = gen_cp_program(rng, loops=(k % 3 != 0), extras=(k % 3 == 2))
+            ins = fir.gen_inputs(rng, p, 2, max_extent=5)
+            yield Case(mkreq('cp', 'plain', 'k' + g(k), p, ins), stream='cp-k' + ('' if k % 3 else '-loopfree'))
+        for k in range(n['dcl']):
+            p = rewrite_conditions(rng, fir.gen_program(rng, DC_CFG), 'lit')
+            yield Case(mkreq('dc', 'nosimp', 'k' + g(k), p, fir.gen_inputs(rng, p, 2)), stream='dc-k-lit')
+        for k in range(n['dcs']):
+            p = rewrite_conditions(rng, fir.gen_program(rng, DC_CFG), 'class')
+            yield Case(mkreq('dc', 'simp', 'k' + g(k), p, fir.gen_inputs(rng, p, 2)), stream='dc-k-simp')
+        for k in range(n['cpw']):
+            p = fir.gen_program(rng, WIDE_CFG)
+            yield Case(mkreq('cp', 'plain', 'o' + g(k), p, fir.gen_inputs(rng, p, 2)), stream='cp-wide')
+        for k in range(n['dcw']):
+            p = fir.gen_program(rng, DC_CFG)
+            yield Case(mkreq('dc', 'simp', 'o' + g(k), p, fir.gen_inputs(rng, p, 2)), stream='dc-wide')
+        for k in range(n['uv']):
+            p = add_unused(rng, fir.gen_program(rng, UV_CFG))
+            yield Case(mkreq('uv', 'all' if k % 2 else 'arrays', 'o' + g(k), p, fir.gen_inputs(rng, p, 2)), stream='uv')
+
+    # ------------------------------------------------------------ real code
+    def impl(self, req):
+        op, flag, kmode, prog, inputs = dec_req(req)
+        if kmode.startswith('o'):
+            return [A('oracle-only')]
+        r = real_transformed(op, flag, prog)
+        if r[0] == 'ok':
+            return [A('ok'), r[1]]
+        return [A(r[0]), A(r[1])]
+
+    def canon_model(self, resp):
+        # (ok PROG (dom BOOL)): the domain flag is for the post hook
+        if isinstance(resp, list) and len(resp) == 3 and str(resp[0]) == 'ok':
+            return resp[:2]
+        return resp
+
+    # ------------------------------------------------------------ oracle
+    def oracle(self, req):
+        op, flag, kmode, prog, inputs = dec_req(req)
+        gf = kmode.endswith('g')       # thorough tier: every 8th case also goes through gfortran
+        return [Failure(what, cls) for what, cls in run_oracle(op, flag, prog, inputs, gfortran=gf)]
+
+    def shrink_candidates(self, req):
+        """drop statements / input sets (structure preserving)"""
+        try:
+            op, flag, kmode, prog, inputs = dec_req(req)
+        except Exception:
+            return
+        if len(inputs) > 1:
+            for i in range(len(inputs)):
+                yield mkreq(op, flag, kmode, prog, inputs[:i] + inputs[i + 1:])
+
+        def variants(stmts):
+            for i, s in enumerate(stmts):
+                yield stmts[:i] + stmts[i + 1:]
+                h = _h(s)
+                if h == 'do':
+                    for b in variants(s[5]):
+                        yield stmts[:i] + [[s[0], s[1], s[2], s[3], s[4], b]] + stmts[i + 1:]
+                elif h in ('while', 'assoc'):
+                    for b in variants(s[2]):
+                        yield stmts[:i] + [[s[0], s[1], b]] + stmts[i + 1:]
+                elif h == 'if':
+                    yield stmts[:i] + s[2] + stmts[i + 1:]
+                    yield stmts[:i] + s[3] + stmts[i + 1:]
+                    for b in variants(s[2]):
+                        yield stmts[:i] + [[s[0], s[1], b, s[3]]] + stmts[i + 1:]
+                    for b in variants(s[3]):
+                        yield stmts[:i] + [[s[0], s[1], s[2], b]] + stmts[i + 1:]
+        for k, u in enumerate(prog[2:]):
+            if k > 0 and not any(_h(s) == 'callsub' and str(s[1]) == str(u[1]) for v in prog[2:] for s in iter_stmts(v[4])):
+                yield mkreq(op, flag, kmode, prog[:2 + k] + prog[3 + k:], inputs)
+            for b in variants(u[4]):
+                yield mkreq(op, flag, kmode, prog[:2 + k] + [[u[0], u[1], u[2], u[3], b]] + prog[3 + k:], inputs)
+
+    # ------------------------------------------------------------ cross-checks
+    def post(self, cases, impl_out, model_raw, oracle_fail):
+        problems, cov = [], Counter()
+        failing = {}
+        for c, f in oracle_fail:
+            failing.setdefault(c.line, []).append(f)
+        if model_raw is None:
+            return [], {}
+        for c, a, raw in zip(cases, impl_out, model_raw):
+            try:
+                op, flag, kmode, prog, inputs = dec_req(c.req)
+            except Exception:
+                continue
+            if not kmode.startswith('k'):
+                cov['oracle_only_cases'] += 1
+                continue
+            m = loads(raw)
+            if str(m[0]) == 'outside-class':
+                cov['k_cases_outside_model_class'] += 1
+                continue
+            if str(m[0]) != 'ok':
+                cov['k_cases_model_predicts_exception'] += 1
+                continue
+            changed = dumps(m[1]) != dumps(fir.normalize(prog))
+            cov[f'{op}_k_changed' if changed else f'{op}_k_unchanged'] += 1
+            dom = len(m) == 3 and str(m[2][1]) == 'true'
+            if dom:
+                cov[f'{op}_k_in_theorem_domain'] += 1
+                fs = [f for f in failing.get(c.line, []) if not f.error]
+                if fs and a == dumps(m[:2]):
+                    problems.append(f'{op} program inside the theorem domain fails the direct oracle: {fs[0].what} '
+                                    f'input={c.line[:300]}')
+        return problems, dict(cov)
+
+
+PROP = C32()
+READY = True
